@@ -126,6 +126,16 @@ func init() {
 					// jumps (also into other years), and every answer must be the one a fresh converter gives by the calendar
 					if cent == cents[0] {
 						first, last := (Date{year, 1, 1}).Zeit(), (Date{year, 12, 31}).Zeit()
+						// a date of a neighbouring year is only asked when this split decodes its two-digit year to that year
+						decodable := func(y int) bool {
+							if !short {
+								return true
+							}
+							if y < 2000 {
+								return cent <= y%100
+							}
+							return cent > y%100
+						}
 						for _, sep := range dateSeps {
 							kal := hermes.KalenderConverter(f, sep)
 							ask := func(n int, how string) bool {
@@ -158,6 +168,39 @@ func init() {
 								for _, off := range []int{0, -1, 0, 27, -1, -2, 1, 30, 0, -1, 14, -1, 31, 0, 28, -1, -31, -1, 59, -1} {
 									if ok = ask(s+off, "asked in zig-zag around a month change"); !ok {
 										break
+									}
+								}
+							}
+							// pairs: the answer for a text may not depend on the text asked directly before. Every pair of days up to 45 days
+							// apart whose first day lies in the last twelve days of a month (so that the pair straddles a month or the
+							// year change), in both orders, through the long-lived text->number converter
+							if sep == "" || sep == dateSeps[1+(year+fi)%3] {
+								for m := 1; m <= 12 && ok; m++ {
+									for dd := 20; dd <= 31 && ok; dd++ {
+										a := Date{year, m, dd}
+										if a.T().Month() != time.Month(m) {
+											continue
+										}
+										for k := 1; k <= 45 && ok; k++ {
+											b := a.AddDays(k)
+											if b.Y > 2099 || !decodable(b.Y) {
+												continue
+											}
+											for o := 0; o < 2 && ok; o++ {
+												x, y := a, b
+												if o == 1 {
+													x, y = b, a
+												}
+												conv(FmtDateSep(x, fi, sep))
+												doy, num := conv(FmtDateSep(y, fi, sep))
+												res.Evals++
+												res.cov("conversions_directly_after_a_nearby_date", 1)
+												if num != y.Zeit() || doy != y.DOY() {
+													res.violate("C12", "text_to_number_depends_on_call_order", fmt.Sprintf("format %s split %d: %q asked directly after %q -> day number %d, day of year %d; calendar says %d, %d", dateFormatNames[fi], cent, FmtDateSep(y, fi, sep), FmtDateSep(x, fi, sep), num, doy, y.Zeit(), y.DOY()), nil)
+													ok = false
+												}
+											}
+										}
 									}
 								}
 							}
@@ -216,8 +259,8 @@ func init() {
 		rs := runFnSharded("C12", tier, seed, fnShards["C12"], 1200)
 		cases, inc := fnToCases("C12", seed, rs, func(r *FnResult) string { return "crash:date_conversion" })
 		spec := checkSpec{Prop: "C12", Level: "exploration",
-			Rule:   "every calendar date 1901-01-01..2099-12-31 x 4 date formats x separators {none . / -} x century splits that keep a two-digit year unambiguous (quick: lowest, highest and three random admissible splits per year; thorough: every admissible split 0..100) through the real DateConverter / KalenderConverter / KalenderDate (each text also with blanks / tabs around it, as a comma-separated file delivers it, and with a blank-padded middle field), compared with Go's time package; the long-lived converters of each direction are additionally asked for every day of every year backwards, in zig-zag around each month change and in random jumps (the answer may not depend on what was asked before); evaluations = text->number conversions, distinct_nontrivial = distinct calendar dates enumerated (all of them are leap-year / month-boundary relevant by construction of the oracle)",
-			Floors: []string{"years", "dates", "leap_years", "conversions_in_non_calendar_order"}, FloorMin: map[string]int64{"years": 199, "dates": 72683, "leap_years": 49}}
+			Rule:   "every calendar date 1901-01-01..2099-12-31 x 4 date formats x separators {none . / -} x century splits that keep a two-digit year unambiguous (quick: lowest, highest and three random admissible splits per year; thorough: every admissible split 0..100) through the real DateConverter / KalenderConverter / KalenderDate (each text also with blanks / tabs around it, as a comma-separated file delivers it, and with a blank-padded middle field), compared with Go's time package; the long-lived converters of each direction are additionally asked for every day of every year backwards, in zig-zag around each month change and in random jumps, and every pair of dates up to 45 days apart that straddles a month or year change is asked back to back in both orders (the answer may not depend on what was asked before); evaluations = text->number conversions, distinct_nontrivial = distinct calendar dates enumerated (all of them are leap-year / month-boundary relevant by construction of the oracle)",
+			Floors: []string{"years", "dates", "leap_years", "conversions_in_non_calendar_order", "conversions_directly_after_a_nearby_date"}, FloorMin: map[string]int64{"years": 199, "dates": 72683, "leap_years": 49}}
 		extra := map[string]interface{}{"exhaustive": true, "explanation": "the date range of the property is enumerated completely (72,684 dates by the calendar oracle: 199 years x 365 + 49 leap days) in both tiers; tiers differ only in the number of century splits tried for the short formats"}
 		return finishCheck(spec, tier, seed, cases, inc, t0, extra)
 	}
